@@ -156,3 +156,20 @@ Theorem C08_refuted_7 : probe_spec ex_cfg w_gone [] = false.               (* ow
 Proof. vm_compute. reflexivity. Qed.
 Theorem C08_refuted_8 : probe_spec ex_cfg w_devname [] = false.            (* device name taken for a bind source *)
 Proof. vm_compute. reflexivity. Qed.
+
+(* ---- the regenerated constants this property's predicate / model rest on, against literals.
+   Gen/Consts.v is rewritten from the source of /repo on every run, so without this theorem an
+   edit of one of these constants would move model, predicate and code together and nothing
+   would be reported.  Used by: the predicate C08.spec (layerconfig) and the state classification of Model/Layers.v / Model/MountInfo.v.
+   "frozen" = no manual text gives the value; it is the value of the reviewed tree. *)
+From LC Require Import Gen.Consts Proofs.C08PinsP.
+Local Open Scope string_scope.
+Theorem C08_constants_pinned :
+  (* doc/layercake_directories.adoc, manual page LAYER DIRECTORY: "layerconfig" *)
+  D_LayerconfigFile = bs "layerconfig" /\
+  (* manual page, status, "not yet populated": bin, etc, lib, opt, root, sbin, usr *)
+  D_MinimalBuildDirs = bs "bin etc lib opt root sbin usr" /\
+  (* frozen from the reviewed tree; property C12 text: "mounts below a /dev or /sys style tree are recognised as shadowed submounts" *)
+  D_ShadowingFsTypes = bs "devtmpfs sysfs".
+Proof. exact c08_constants_pinned. Qed.
+Print Assumptions C08_constants_pinned.
